@@ -67,6 +67,8 @@ impl<'a> Bytes<'a> {
         // TODO: once we bump MSRV, use const generics to allow only [u8; N] reads
         // TODO: drop `n` arg in favour of const
         // let n = core::mem::size_of::<U>();
+        #[cfg(httparse_verif)]
+        verif_counters::PEEK_N.fetch_add(1, core::sync::atomic::Ordering::Relaxed);
         self.as_ref().get(..n)?.try_into().ok()
     }
 
@@ -87,6 +89,8 @@ impl<'a> Bytes<'a> {
     /// Caller must ensure that Bytes hasn't been advanced/bumped by more than [`Bytes::len()`].
     #[inline]
     pub unsafe fn advance(&mut self, n: usize) {
+        #[cfg(httparse_verif)]
+        verif_counters::ADVANCED.fetch_add(n, core::sync::atomic::Ordering::Relaxed);
         self.cursor = self.cursor.add(n);
         debug_assert!(self.cursor <= self.end, "overflow");
     }
@@ -196,4 +200,18 @@ impl Iterator for Bytes<'_> {
             None
         }
     }
+}
+
+#[cfg(httparse_verif)]
+#[allow(missing_docs)]
+pub mod verif_counters {
+    use core::sync::atomic::AtomicUsize;
+    /// Sum of all `advance(n)` / `bump()` distances.
+    pub static ADVANCED: AtomicUsize = AtomicUsize::new(0);
+    /// Number of `peek_n` block peeks.
+    pub static PEEK_N: AtomicUsize = AtomicUsize::new(0);
+    /// Number of 16-byte SSE4.2 block loads.
+    pub static SSE42_LOADS: AtomicUsize = AtomicUsize::new(0);
+    /// Number of 32-byte AVX2 block loads.
+    pub static AVX2_LOADS: AtomicUsize = AtomicUsize::new(0);
 }
